@@ -49,7 +49,10 @@ def split_cases(text):
     return out[1:]
 
 def run_script(exe, args, script, env=None):
-    r = subprocess.run([str(exe)] + args, input=script.encode(), stdout=subprocess.PIPE, stderr=subprocess.PIPE, timeout=1200, env=env)
+    try:
+        r = subprocess.run(["timeout", "-s", "KILL", "120", str(exe)] + args, input=script.encode(), stdout=subprocess.PIPE, stderr=subprocess.PIPE, timeout=200, env=env)
+    except subprocess.TimeoutExpired:
+        return -9, "", "TIMEOUT (hang)"
     return r.returncode, r.stdout.decode(errors="replace"), r.stderr.decode(errors="replace")
 
 def noshape(lines):
